@@ -16,7 +16,7 @@ from __future__ import annotations
 import ast
 
 from .e1_srcmodel import dotted
-from .e3_masks import MaskTyper, A, _join as join_types
+from .e3_masks import MaskTyper, A, I, NZ, EMPTY, _join as join_types
 
 
 class A2(A):
@@ -43,6 +43,13 @@ class Gen:
         self.t = t
 
 
+class NZ2:
+    """result of np.nonzero(mask) / mask.nonzero() for a named mask: a tuple whose element 0 is the index vector `ix`"""
+
+    def __init__(self, ix):
+        self.ix = ix
+
+
 class Fn:
     def __init__(self, name):
         self.name = name
@@ -62,11 +69,46 @@ class DictT(dict):
 NONEV = "the value None"        # `x = None` as a placeholder: the other arm of the branch says what x is when it is used
 
 
+class AMix(A):
+    """an array that lives in different (known) spaces on different paths through the function: unknown for every operation (s is None), but a rule that
+    knows which space a published value must live in can say that one of the paths is wrong"""
+    __slots__ = ("mixed",)
+
+    def __init__(self, kind, mixed):
+        super().__init__(None, kind)
+        self.mixed = frozenset(mixed)
+
+    def __repr__(self):
+        return f"A(one of {sorted(self.mixed)} depending on the path)"
+
+
+class IMix(I):
+    """an index vector whose positions are relative to different (known) spaces on different paths"""
+    __slots__ = ("mixed",)
+
+    def __init__(self, mixed):
+        super().__init__(None, None)
+        self.mixed = frozenset(mixed)
+
+    def __repr__(self):
+        return f"I(positions relative to one of {sorted(self.mixed)} depending on the path)"
+
+
 def _join_any(a, b, in1=True, in2=True):
     if isinstance(a, str) and a == NONEV:
         return b
     if isinstance(b, str) and b == NONEV:
         return a
+    if isinstance(a, A) and isinstance(b, A):
+        sa = a.mixed if isinstance(a, AMix) else ({a.s} if a.s is not None else None)
+        sb = b.mixed if isinstance(b, AMix) else ({b.s} if b.s is not None else None)
+        if sa and sb and set(sa) != set(sb):
+            return AMix(a.kind if a.kind == b.kind else None, set(sa) | set(sb))
+    if isinstance(a, I) and isinstance(b, I):
+        da = a.mixed if isinstance(a, IMix) else ({a.dom} if a.dom is not None else None)
+        db = b.mixed if isinstance(b, IMix) else ({b.dom} if b.dom is not None else None)
+        if da and db and set(da) != set(db):
+            return IMix(set(da) | set(db))
     if isinstance(a, Tup) and isinstance(b, Tup) and (not a or not b):
         return a or b            # `x if c else ()`: iterating the empty tuple does nothing
     if isinstance(a, DictT) and isinstance(b, DictT) and set(a) == set(b):
@@ -109,6 +151,13 @@ class MaskTyper01(MaskTyper):
         hits = [st for st in mod.tree.body if isinstance(st, ast.Assign) and any(isinstance(t, ast.Name) and t.id == name for t in st.targets)]
         if len(hits) == 1 and isinstance(hits[0].value, (ast.Tuple, ast.List)) and all(isinstance(e, ast.Constant) and isinstance(e.value, str) for e in hits[0].value.elts):
             return Tup(Str(e.value) for e in hits[0].value.elts)
+        if len(hits) == 1 and isinstance(hits[0].value, ast.Call):
+            c = hits[0].value
+            d = dotted(c.func)
+            if d in ("np.arange", "np.zeros", "np.empty") and len(c.args) == 1 and isinstance(c.args[0], ast.Constant) and c.args[0].value == 0:
+                return EMPTY          # a module-level empty index vector (`_NOROWS = np.arange(0)`)
+            if d in ("np.array", "np.asarray") and c.args and isinstance(c.args[0], (ast.List, ast.Tuple)) and not c.args[0].elts:
+                return EMPTY
         return None
 
     def ty(self, node):
@@ -122,8 +171,25 @@ class MaskTyper01(MaskTyper):
             t = self.module_const(node.id)
             if t is not None:
                 return t
-        if isinstance(node, ast.Dict) and node.keys and all(isinstance(k, ast.Constant) and isinstance(k.value, str) for k in node.keys):
-            return DictT((k.value, self.ty(v)) for k, v in zip(node.keys, node.values))
+        if isinstance(node, ast.Dict) and all(isinstance(k, ast.Constant) and isinstance(k.value, str) for k in node.keys):
+            return DictT((k.value, self.ty(v)) for k, v in zip(node.keys, node.values))         # also `{}`: entries are added by stores
+        if isinstance(node, (ast.GeneratorExp, ast.ListComp)) and len(node.generators) > 1 and not any(g.ifs for g in node.generators):
+            out = []
+
+            def rec(k):
+                if k == len(node.generators):
+                    out.append(self.ty(node.elt))
+                    return True
+                items = self.items(node.generators[k].iter)
+                if items is None or len(items) > 16:
+                    return False
+                for it in items:
+                    self.bind(node.generators[k].target, it, node)
+                    if not rec(k + 1):
+                        return False
+                return True
+            if rec(0) and len(out) <= 64:
+                return Tup(out)
         if isinstance(node, (ast.DictComp, ast.GeneratorExp, ast.ListComp)) and len(node.generators) == 1 and not node.generators[0].ifs:
             items = self.items(node.generators[0].iter)
             if items is not None and len(items) <= 16:
@@ -140,6 +206,8 @@ class MaskTyper01(MaskTyper):
                 return DictT(out) if isinstance(node, ast.DictComp) else Tup(out)
         if isinstance(node, ast.Subscript):
             b = self.ty(node.value)
+            if isinstance(b, NZ2):
+                return b.ix if isinstance(node.slice, ast.Constant) and node.slice.value == 0 else None
             if isinstance(b, DictT):
                 k = self.ty(node.slice)
                 return b.get(k.v) if isinstance(k, Str) else None
@@ -187,6 +255,33 @@ class MaskTyper01(MaskTyper):
         if d in ("tuple", "list") and len(node.args) == 1:
             t = self.ty(node.args[0])
             return t if isinstance(t, Tup) else None
+        if d in ("np.where", "numpy.where") and len(node.args) == 3:
+            return self._join(node, [self.ty(a) for a in node.args], "elementwise operation")          # np.where(c, x, y): one entry per entry of c
+        if d in ("np.flatnonzero", "np.nonzero", "np.where", "np.argwhere") and len(node.args) == 1 and not node.keywords:
+            # the positions of the True entries of a *named* mask select the sub-space the mask itself selects: X[np.flatnonzero(pv)] is X[pv]
+            t = self.ty(node.args[0])
+            if isinstance(t, A) and t.kind == "mask" and t.s is not None and isinstance(node.args[0], ast.Name):
+                ix = I(t.s, f"{t.s}/{self._sel_name(node.args[0])}")
+                return ix if d == "np.flatnonzero" else NZ2(ix)
+        if isinstance(node.func, ast.Attribute) and node.func.attr == "nonzero" and not node.args and isinstance(node.func.value, ast.Name):
+            t = self.ty(node.func.value)
+            if isinstance(t, A) and t.kind == "mask" and t.s is not None:
+                return NZ2(I(t.s, f"{t.s}/{self._sel_name(node.func.value)}"))
+        if d in ("np.logical_and.reduce", "np.logical_or.reduce", "np.bitwise_and.reduce", "np.bitwise_or.reduce") and len(node.args) == 1:
+            t = self.ty(node.args[0])
+            if isinstance(t, Tup) and t:
+                return self._join(node, list(t), "boolean operation")
+            return None
+        if d in ("np.logical_and", "np.logical_or", "np.logical_xor", "np.bitwise_and", "np.bitwise_or") and len(node.args) == 2:
+            return self._join(node, [self.ty(a) for a in node.args], "boolean operation" if "logical" in d else "mask operation")
+        if isinstance(node.func, ast.Attribute) and node.func.attr == "get" and 1 <= len(node.args) <= 2 and not node.keywords:
+            b = self.ty(node.func.value)
+            if isinstance(b, DictT):
+                k = self.ty(node.args[0])
+                dv = self.ty(node.args[1]) if len(node.args) == 2 else NONEV
+                if not isinstance(k, Str):
+                    return None
+                return _join_any(b[k.v], dv) if k.v in b else dv
         from .e3_masks import CTORS
         if d in CTORS and node.args:
             # np.zeros(len(x)) / np.zeros(x.shape[0]) / np.zeros(x.size): an array over the space of x
@@ -227,15 +322,27 @@ class MaskTyper01(MaskTyper):
         deco = {dotted(x) for x in fn.decorator_list}
         if name.startswith("self.") and "staticmethod" not in deco and params:
             params = params[1:]
-        if a.vararg or a.kwarg or len(node.args) > len(params):
+        if len(node.args) > len(params) and not a.vararg:
             return NotImplemented
         env = {k: v for k, v in self.env.items() if "." in k or name in self.closures}
         for p, x in zip(params, node.args):
             env[p] = self.ty(x)
+        if a.vararg:
+            env[a.vararg.arg] = Tup(self.ty(x) for x in node.args[len(params):])
+        kwonly = [x.arg for x in a.kwonlyargs]
+        extra = DictT()
         for k in node.keywords:
-            if k.arg not in params:
-                return NotImplemented
+            if k.arg not in params and k.arg not in kwonly:
+                if not a.kwarg:
+                    return NotImplemented
+                extra[k.arg] = self.ty(k.value)          # **kwargs: a dict of the surplus keywords
+                continue
             env[k.arg] = self.ty(k.value)
+        if a.kwarg:
+            env[a.kwarg.arg] = extra
+        for p, dd in zip(kwonly, a.kw_defaults):
+            if p not in env and dd is not None:
+                env[p] = self.ty(dd)
         dflt = dict(zip(params[::-1], (a.defaults or [])[::-1]))
         for p in params:
             if p not in env:
@@ -277,9 +384,23 @@ class MaskTyper01(MaskTyper):
             # both arms, then the join (as in the base class) - a `None` placeholder on one side leaves the other side's type
             self.ty(st.test)
             env0 = dict(self.env)
+            # `if X is None:` / `if X is not None:` - in the arm where X is None it is the value None, whatever array it may be on the other arm
+            none_in = None
+            t_ = st.test
+            neg = False
+            while isinstance(t_, ast.UnaryOp) and isinstance(t_.op, ast.Not):
+                t_, neg = t_.operand, not neg
+            if isinstance(t_, ast.Compare) and len(t_.ops) == 1 and isinstance(t_.ops[0], (ast.Is, ast.IsNot, ast.Eq, ast.NotEq)) and isinstance(t_.left, ast.Name) \
+                    and isinstance(t_.comparators[0], ast.Constant) and t_.comparators[0].value is None:
+                is_none_true = isinstance(t_.ops[0], (ast.Is, ast.Eq)) != neg
+                none_in = (t_.left.id, "body" if is_none_true else "orelse")
+            if none_in and none_in[1] == "body":
+                self.env[none_in[0]] = NONEV
             self.run(st.body)
             env1 = self.env
             self.env = dict(env0)
+            if none_in and none_in[1] == "orelse":
+                self.env[none_in[0]] = NONEV
             self.run(st.orelse)
             env2 = self.env
             merged = {}
@@ -340,7 +461,16 @@ class MaskTyper01(MaskTyper):
             for t in target.elts:
                 self.assign(t, None, st)
             return
-        if isinstance(v, (Tup, Gen, Fn, Str, DictT)) and not isinstance(target, ast.Name):
+        if isinstance(target, ast.Subscript):
+            b = self.ty(target.value)
+            if isinstance(b, DictT):
+                k = self.ty(target.slice)
+                if isinstance(k, Str):
+                    if isinstance(v, I) and v.cod is None and v.dom is not None:
+                        v = I(v.dom, f"{v.dom}/{k.v}")
+                    b[k.v] = v          # tab["name"] = value
+                return None
+        if isinstance(v, (Tup, Gen, Fn, Str, DictT, NZ2)) and not isinstance(target, ast.Name):
             v = None
         r = super().assign(target, v, st)
         if isinstance(target, ast.Name) and type(v) is A and v.kind == "mask" and self.env.get(target.id) is v:
